@@ -37,6 +37,7 @@ type FuncCtx struct {
 	callResults  map[string][]SV
 	heapAllocs   map[*ssa.Alloc]*Term // reference of the heap object created by the latest execution of an escaping local's Alloc
 	freeSV       map[string]SV
+	dispatchRecv types.Type // receiver type of the implementation whose contract is being applied by dispatchCall
 	depth        int
 	nRet         int
 }
@@ -675,6 +676,9 @@ func (v *Verifier) asTerm(st *State, x Val) *Term {
 		if x.Loc.Ref != nil && len(x.Loc.Path) == 0 {
 			return x.Loc.Ref
 		}
+		if x.Loc.Ref != nil && fieldOnlyPath(x.Loc.Path) {
+			return v.interiorPtr(st, x.Loc)
+		}
 		unsupported("address of a local variable or interior pointer used as a value")
 	case x.Clo != nil:
 		return v.c.Const("closure_"+sanitize(x.Clo.Fn.Name()), SInt)
@@ -966,7 +970,9 @@ func (fc *FuncCtx) loopHead(fr *Frame, ci *cfgInfo, h *ssa.BasicBlock, st *State
 	// automatic heap frame invariant for heaps written in the loop: objects that are not modifies targets of
 	// the function keep their entry value (checked on entry and at every back edge like any invariant)
 	for _, g := range gks {
-		if strings.HasPrefix(g, "H_") {
+		// a function that gives up its frame obligations (`allow frame`) gets no automatic loop frame either: the loop may
+		// write objects the contract cannot list (everything it needs must then be in its explicit invariants)
+		if strings.HasPrefix(g, "H_") && !fc.spec.Allow["frame"] {
 			fc.loopFrames[h] = append(fc.loopFrames[h], g)
 			v.addObligation(&Obligation{Name: fmt.Sprintf("%s#loop%d.init.frame_%s", fc.short, k, g), Kind: "inv.init", Func: fc.key,
 				Assume: st.pc, Goal: fc.heapFrameTerm(st, g), Expect: "unsat", Src: "objects of " + g + " outside the modifies clause are unchanged"})
